@@ -11,6 +11,11 @@ func (rt *runtime) cmplEvaluateNodeProgram(node *nodeProgram, eval bool) Value {
 	}
 	rt.cmplFunctionDeclaration(node.functionList)
 	rt.cmplVariableDeclaration(node.varList)
+	if eval {
+		// A direct eval runs in the caller's scope: give the caller its file back afterwards.
+		scope, file := rt.scope, rt.scope.frame.file
+		defer func() { scope.frame.file = file }()
+	}
 	rt.scope.frame.file = node.file
 	return rt.cmplEvaluateNodeStatementList(node.body)
 }
